@@ -335,7 +335,7 @@ def goodCfg : Cfg := { wake := .next, wakeOnlyIfHead := true }
     have left — one by cancellation, one by TTL — and a later arrival, 4 is the granted head. -/
 example : (run goodCfg init [.enqueue 1, .acquire 1, .enqueue 2, .enqueue 4, .cancel 2, .enqueue 5, .ttl 1]).map
     (fun s => (s.q.callers, s.q.ready)) = some ([4, 5], [4]) := by decide
-def goodGw : GwCfg := { ttlThresh := 1000, ttlFloor := 1000 }
+def goodGw : GwCfg := { ttlThresh := 1000, ttlFloor := 1000, ttlCap := some 9223372036854 }
 
 /-- Non-vacuity: three callers, the second is cancelled while waiting, the holder's TTL fires,
     a stale unlock follows; the third caller ends up granted and nobody was skipped. -/
@@ -482,6 +482,29 @@ theorem ttl_exact (gw : GwCfg) (t c : Int) (hf : 0 < gw.ttlFloor) (hc : gw.ttlCa
   unfold maxTTLms at h1
   unfold effDurNs
   rw [wrap64_id _ (by omega) (by omega)]
+
+/-! ### The gateway's context: both shapes are covered
+
+    `gateway.Lock` hands the locker either the caller's context (a waiting RPC leaves the queue
+    through the `cancel` action when its client gives up — also while it is being granted) or
+    `context.WithoutCancel(ctx)` (no `cancel` ever originates from an RPC).  `Holds` quantifies over
+    ALL action lists, so it covers both; the two theorems below say so for each shape. -/
+
+/-- detached context: the runs that contain no `cancel` at all are runs of the same LTS -/
+def CancelFree (as : List Act) : Prop := ∀ a ∈ as, ∀ id, a ≠ Act.cancel id
+
+theorem detached_runs_covered (cfg : Cfg) (hg : IsGood cfg) (as : List Act) (s : St)
+    (_ : CancelFree as) (h : run cfg init as = some s) :
+    Inv s ∧ s.q.panics = 0 ∧ (holders s).length ≤ 1 :=
+  ⟨reach_inv cfg hg as s h, (reach_inv cfg hg as s h).noPanic,
+   ((holds_good cfg goodGw hg ⟨by decide, by decide, 9223372036854, rfl, by decide, by decide⟩).mutex as s h).1⟩
+
+/-- caller's context, the race through the RPC: holder 1, waiter 2; 2's client gives up, 1 unlocks
+    (2 is granted) — whichever select branch 2 takes, nobody is left on the key afterwards -/
+theorem gateway_cancel_vs_grant :
+    (run ⟨.next, true⟩ init [.enqueue 1, .acquire 1, .enqueue 2, .unlock 1, .cancel 2]).map (fun s => (s.q.callers, s.q.ready)) = some ([], []) ∧
+    (run ⟨.next, true⟩ init [.enqueue 1, .acquire 1, .enqueue 2, .unlock 1, .acquire 2, .unlock 2]).map (fun s => (s.q.callers, s.q.ready)) = some ([], []) := by
+  decide
 
 /-! ### Decision over the extracted facts -/
 
